@@ -17,6 +17,7 @@ class Tape:
         self.replay = None if replay is None else list(replay)
         self.rng = random.Random(seed) if replay is None else None
         self.pos = 0
+        self.tail = None         # random.Random for "rand/" draws past the end of a replay
         self.values = []         # recorded k of every draw
         self.labels = []         # label of every draw (same length)
         self.counts = {}         # label -> number of non-zero draws (= "fired")
@@ -31,6 +32,10 @@ class Tape:
             k = self.rng.randrange(n)
         elif self.pos < len(self.replay):
             k = self.replay[self.pos] % n
+        elif self.tail is not None and label.startswith("rand/"):
+            # past the recorded values: the library's own PRNG goes on drawing (a constant
+            # would make its "draw until unused" loops spin), everything else is benign
+            k = self.tail.randrange(n)
         else:
             k = 0
         self.pos += 1
